@@ -323,6 +323,180 @@ def function_configuration_arity(src):
 # --------------------------------------------------------------------------- the dtype decision
 
 
+# --------------------------------------------------------------------------- whose array does `materialize` return?
+
+_NEW_ARRAY = {"numpy.full", "numpy.array", "numpy.repeat", "numpy.take", "numpy.tile", "numpy.concatenate", "numpy.copy",
+              "numpy.zeros", "numpy.ones", "numpy.empty", "numpy.full_like", "numpy.zeros_like", "numpy.ones_like",
+              "numpy.empty_like", "numpy.fromiter", "numpy.hstack", "numpy.arange", "numpy.where", "numpy.nonzero",
+              "numpy.flatnonzero", "numpy.argsort", "numpy.sort", "numpy.unique", "numpy.char.upper", "numpy.char.add"}
+_SAME_OR_NEW = {"numpy.asarray", "numpy.asanyarray", "numpy.ascontiguousarray"}
+_WINDOW = {"numpy.broadcast_to", "numpy.reshape", "numpy.ravel", "numpy.squeeze", "numpy.atleast_1d", "numpy.transpose",
+           "numpy.flip", "numpy.expand_dims", "numpy.lib.stride_tricks.as_strided", "numpy.lib.stride_tricks.sliding_window_view",
+           "numpy.broadcast_arrays", "numpy.swapaxes", "numpy.moveaxis"}
+_NEW_METHODS = {"copy", "astype", "repeat", "take", "flatten", "compress", "round", "clip"}
+_WINDOW_METHODS = {"view", "reshape", "ravel", "squeeze", "transpose", "swapaxes"}
+
+
+def materialize_origin(fn):
+    """`fresh` when every `return` of the method hands out an array (or list) built anew -- numpy.full /
+    numpy.array / repeat / take / indexing by an index array / arithmetic; `alias` when it hands out a
+    window onto an array stored on the column -- numpy.broadcast_to / slicing / view / reshape / asarray of
+    `self.<attr>`, or the attribute itself.  Anything else is not recognised (KeyError: the item degrades)."""
+    def no_copy_false(call):
+        return not any(k.arg == "copy" for k in call.keywords) and not any(k.arg == "out" for k in call.keywords)
+
+    env = {}  # name -> origin of what it is bound to where the walk stands (absent / None: not recognised)
+
+    def org(e, depth=0):
+        if depth > 12 or e is None:
+            raise KeyError("materialize: an expression whose origin is not recognised")
+        if isinstance(e, ast.Name):
+            if env.get(e.id) is None:
+                raise KeyError("materialize: `%s` is bound to something that is not recognised" % e.id)
+            return env[e.id]
+        if isinstance(e, ast.Attribute):
+            if isinstance(e.value, ast.Name) and e.value.id == "self":
+                # (an attribute the method itself has just bound is what it was bound to: a scratch array built in
+                # this call; any other attribute is an array stored on the column)
+                key = "self." + e.attr
+                if key in env:
+                    if env[key] is None:
+                        raise KeyError("materialize: `%s` is bound to something that is not recognised" % key)
+                    return env[key]
+                return "stored"
+            if e.attr in ("T", "real", "imag", "flat") and org(e.value, depth + 1) == "stored":
+                return "stored"
+            raise KeyError("materialize: attribute `%s`" % ast.unparse(e))
+        if isinstance(e, (ast.List, ast.ListComp, ast.Tuple)):
+            return "pylist"
+        if isinstance(e, ast.BinOp):
+            sides = []
+            for x in (e.left, e.right):
+                try:
+                    sides.append(org(x, depth + 1))
+                except KeyError:
+                    sides.append(None)
+            if "pylist" in sides:
+                return "pylist"
+            if any(sides):
+                return "fresh"
+            raise KeyError("materialize: `%s`" % ast.unparse(e))
+        if isinstance(e, ast.IfExp):
+            a, b = org(e.body, depth + 1), org(e.orelse, depth + 1)
+            if a == b:
+                return a
+            raise KeyError("materialize: a conditional expression of two origins")
+        if isinstance(e, ast.Call):
+            name = ast.unparse(e.func)
+            if name in _NEW_ARRAY and no_copy_false(e):
+                return "fresh"
+            if name in ("list", "sorted"):
+                return "pylist"
+            if name == "getattr" and e.args and isinstance(e.args[0], ast.Name) and e.args[0].id == "self":
+                return "stored"
+            if name in _SAME_OR_NEW and e.args:
+                o = org(e.args[0], depth + 1)
+                return "fresh" if o == "pylist" else o
+            if name in _WINDOW and e.args:
+                if org(e.args[0], depth + 1) == "stored":
+                    return "stored"
+                raise KeyError("materialize: `%s` of an array that is not stored on the column" % name)
+            if isinstance(e.func, ast.Attribute):
+                if e.func.attr == "tolist":
+                    return "pylist"
+                if e.func.attr in _NEW_METHODS and no_copy_false(e):
+                    org(e.func.value, depth + 1)  # (of something recognised)
+                    return "fresh"
+                if e.func.attr in _WINDOW_METHODS:
+                    if org(e.func.value, depth + 1) == "stored":
+                        return "stored"
+            raise KeyError("materialize: call `%s`" % name)
+        if isinstance(e, ast.Subscript):
+            base = org(e.value, depth + 1)
+            ix = e.slice
+            parts = ix.elts if isinstance(ix, ast.Tuple) else [ix]
+            if all(isinstance(x, ast.Slice) or (isinstance(x, ast.Constant) and x.value in (Ellipsis, None)) for x in parts):
+                return base  # (a slice of an array is a window; a slice of a list is a list)
+            if len(parts) == 1 and base in ("stored", "fresh"):
+                try:
+                    if org(parts[0], depth + 1) in ("stored", "fresh", "pylist"):
+                        return "fresh"  # (indexing by an index array / list gathers into a new array)
+                except KeyError:
+                    pass
+            raise KeyError("materialize: subscript `%s`" % ast.unparse(e))
+        raise KeyError("materialize: `%s`" % ast.unparse(e)[:60])
+
+    rets = []  # origin of every `return` (None: not recognised), with the message of the first that is not
+
+    def try_org(e):
+        try:
+            return org(e), None
+        except KeyError as err:
+            return None, err
+
+    def merge(e1, e2):
+        # after an `if`: a name bound differently in the two branches is a window as soon as one of them is
+        out = {}
+        for k in set(e1) | set(e2):
+            a, b = e1.get(k), e2.get(k)
+            out[k] = a if a == b else "stored" if "stored" in (a, b) else None
+        return out
+
+    def walk(stmts):
+        nonlocal env
+        for st in stmts:
+            if isinstance(st, ast.Assign):
+                v, _ = try_org(st.value)
+                for t in st.targets:
+                    if isinstance(t, ast.Attribute) and isinstance(t.value, ast.Name) and t.value.id == "self":
+                        env["self." + t.attr] = v
+                    for x in ([t] if isinstance(t, ast.Name) else t.elts if isinstance(t, (ast.Tuple, ast.List)) else []):
+                        if isinstance(x, ast.Name):
+                            env[x.id] = v if isinstance(t, ast.Name) else None
+            elif isinstance(st, ast.AnnAssign) and isinstance(st.target, ast.Name) and st.value is not None:
+                env[st.target.id] = try_org(st.value)[0]
+            elif isinstance(st, ast.If):
+                before = dict(env)
+                walk(st.body)
+                after_body, env = env, dict(before)
+                walk(st.orelse)
+                env = merge(after_body, env)
+            elif isinstance(st, (ast.For, ast.While)):
+                if isinstance(st, ast.For):
+                    for x in ast.walk(st.target):
+                        if isinstance(x, ast.Name):
+                            env[x.id] = None
+                before = dict(env)
+                walk(st.body)
+                env = merge(before, env)
+                walk(st.orelse)
+            elif isinstance(st, ast.With):
+                walk(st.body)
+            elif isinstance(st, ast.Try):
+                walk(st.body)
+                for h in st.handlers:
+                    walk(h.body)
+                walk(st.orelse)
+                walk(st.finalbody)
+            elif isinstance(st, ast.Return):
+                rets.append(try_org(st.value))
+            # (`x *= 2`, `x[i] = v`, `x.extend(...)`: in place, the object stays the one it was; other statements: nothing)
+
+    walk(fn.body)
+    if not rets:
+        raise KeyError("materialize: no return")
+    if any(k == "stored" for k, _ in rets):
+        return "alias"  # (one `return` that hands out a window is enough: a fast path for one shape of column)
+    for k, err in rets:
+        if k is None:
+            raise err
+    return "fresh"
+
+
+ORIGINS = (("rle", "RLEColumn"), ("dict", "DictionaryColumn"), ("sparse", "SparseColumn"), ("const", "ConstantColumn"),
+           ("function", "FunctionColumn"))
+
+
 def kind_ctor(ch):
     if ch not in KINDS:
         raise Untranslatable("dtype kind %r" % ch)
@@ -569,6 +743,11 @@ def generate(o):
         text += "/-- the default `configuration` of FunctionColumn: how many arguments the binding of a column declared\n"
         text += "without one is called with (`field(default_factory=tuple)`: none) -/\n"
         text += "def functionConfigurationArity : Nat := %d\n\n" % (fa if isinstance(fa, int) and fa >= 0 else 0)
+        for short, cls in ORIGINS:
+            text += "/-- whose array `%s.materialize` returns, read off its `return` expression(s): `fresh` = built anew\n" % cls
+            text += "(numpy.full / numpy.array / repeat / take / indexing by an index array), `aliasStored` = a window onto an\n"
+            text += "array stored on the column (numpy.broadcast_to / slicing / view / the attribute itself) -/\n"
+            text += "def %sMaterializeOrigin : Origin := %s\n\n" % (short, ".aliasStored" if og[cls] == "alias" else ".fresh")
         text += "end Gen.Encodings\n"
         return text
 
@@ -600,6 +779,8 @@ def generate(o):
     ld = {cls: o.item("schema.length_default." + cls, (lambda cls=cls: class_length_default(src, cls)), 1)
           for cls in ("ConstantColumn", "FunctionColumn")}
     fa = o.item("schema.function_configuration_arity", lambda: function_configuration_arity(src), 0)
+    og = {cls: o.item("schema.materialize_origin." + cls, (lambda cls=cls: materialize_origin(src.func("materialize", cls))), "fresh")
+          for _, cls in ORIGINS}
     dd = o.item("schema.lean.sparseResultDType", lambda: dtype_decision(src.func("materialize", "SparseColumn")),
                 PINNED["sparseResultDType"])
     text = assemble(translated, dd)
